@@ -18,7 +18,10 @@ THEOREMS = [
     'PbBss.C10.psd_nomask_posSemidef',
     'PbBss.C10.psd_scale_invariant',
     'PbBss.C10.psd_zero_mask',
-    'PbBss.C10.psd_layout',
+    'PbBss.C10.psd_layout_source',
+    'PbBss.C10.psd_layout_plain',
+    'PbBss.C10.psd_layout_nomask',
+    'PbBss.C10.psd_layout_bool',
     'PbBss.C10.condition_cov_formula',
     'PbBss.C10.condition_cov_trace',
     'PbBss.C10.condition_cov_hermitian',
@@ -31,7 +34,7 @@ ASSUMPTIONS = [
     'floor >= 0, the rescaling theorem needs sum(m) >= floor and c*sum(m) >= floor (below the floor the code divides by '
     'the floor, which the oracle follows)',
     'axis handling (sensor_dim/source_dim/time_dim, rollaxis) is modelled on index functions (PbBss.Psd.psdFull, theorem '
-    'psd_layout); NumPy transpose/einsum/rollaxis semantics themselves are modelled, not verified',
+    'psd_layout_source/plain/nomask); NumPy transpose/einsum/rollaxis semantics themselves are modelled, not verified',
     'float32 masks are compared at single precision (1e-5)',
 ]
 
@@ -146,13 +149,11 @@ def psd_is_defining_sum(observation, mask, sensor_dim, source_dim, time_dim, nor
         m2 = mask0.copy()
         m2.setflags(write=False)
     try:
-        again = PSD(o2, m2, sensor_dim=sensor_dim, source_dim=source_dim, time_dim=time_dim, normalize=normalize)
+        PSD(o2, m2, sensor_dim=sensor_dim, source_dim=source_dim, time_dim=time_dim, normalize=normalize)
     except ValueError as e:
         if 'read-only' in str(e):
             return Fail('writes-to-input', f'call on read-only inputs raised: {e}')
         raise
-    if not np.array_equal(again, got):
-        return Fail('not-reproducible', 'second call on equal inputs gave a different result')
 
 
 @oracle
@@ -216,7 +217,7 @@ def psd_boolean_equals_float(observation, mask, sensor_dim, source_dim, time_dim
     kw = dict(sensor_dim=sensor_dim, source_dim=source_dim, time_dim=time_dim, normalize=normalize)
     a = PSD(observation, mask, **kw)
     b = PSD(observation, mask.astype(np.float64), **kw)
-    if not np.array_equal(a, b):
+    if _per_matrix_err(np.asarray(a), np.asarray(b)) > RTOL:
         return Fail('boolean-differs-from-float', f'boolean mask and its float copy give different results '
                     f'(rel. {pu.rel_err(a, b):.3g})')
 
@@ -315,7 +316,7 @@ def search(ctx):
             time_dim=-1, normalize=False)
     ctx.run(psd_boolean_equals_float, observation=x, mask=rng.random((3, 2, 5)) < 0.5, sensor_dim=-2, source_dim=-2,
             time_dim=-1, normalize=True)
-    n_cases = ctx.n(700, 12000)
+    n_cases = ctx.n(3000, 40000)
     for i in range(n_cases):
         if ctx.out_of_time(reserve=20):
             break
@@ -366,7 +367,7 @@ def search(ctx):
                     ctx.run(psd_is_defining_sum, observation=obs, mask=mask, sensor_dim=lay[0] - o, source_dim=lay[1] - o,
                             time_dim=lay[2] - o, normalize=bool(rng.random() < 0.5))
     # condition_covariance
-    for i in range(ctx.n(300, 5000)):
+    for i in range(ctx.n(1200, 15000)):
         if ctx.out_of_time():
             break
         nlead = int(rng.integers(0, 4))
@@ -425,9 +426,9 @@ def _full_line(case, lay, dims, normalize, obs, mask):
 def corr(ctx):
     rng = ctx.rng
     lines, metas = [], []
-    n_cases = ctx.n(250, 4000)
+    n_cases = ctx.n(500, 6000)
     for i in range(n_cases):
-        case = _gen_case(rng, ctx.tier, small=True)
+        case = _gen_case(rng, ctx.tier, small=(i % 4 != 0))      # every 4th case: D <= 8, T <= 64, K <= 5
         if case['okind'] == 'scaled' or case['mkind'] == 'float32':
             case['obs_c'], case['okind'] = pu.gen_obs(rng, case['lead'], case['D'], case['T'], 'normal')
             if case['mask_c'] is not None and case['mkind'] == 'float32':
@@ -441,9 +442,11 @@ def corr(ctx):
         # (a) index-level model on canonical data
         lines.append(_psd_line(case, normalize))
         metas.append(('psd-index', case, lay, (sd, so, td), normalize, want))
-        # (b) full-array model: the Lean side does the transposes / rollaxis itself
-        lines.append(_full_line(case, lay, (sd, so, td), normalize, obs, mask))
-        metas.append(('psd-full', case, lay, (sd, so, td), normalize, want))
+        # (b) full-array model: the Lean side does the transposes / rollaxis itself (list-indexed: kept to moderate sizes)
+        if want.size * case['T'] <= 40000:
+            lines.append(_full_line(case, lay, (sd, so, td), normalize, obs, mask))
+            metas.append(('psd-full', case, lay, (sd, so, td), normalize, want))
+        ctx.count(f'corr-psd-size:{"small" if i % 4 else "full-range"}')
         ctx.count(f'corr-psd-mask:{case["mkind"]}')
         ctx.count(f'corr-psd-nlead:{len(case["lead"])}')
     out = run_driver(lines, exe='driver_psd')
@@ -471,7 +474,7 @@ def corr(ctx):
                     'layout(sensor,source,time)': list(m[2]), 'dims': list(m[3]), 'normalize': m[4]})
     # condition_covariance
     lines, metas = [], []
-    for i in range(ctx.n(150, 3000)):
+    for i in range(ctx.n(300, 4000)):
         nlead = int(rng.integers(0, 4))
         lead = pu.gen_lead(rng, nlead)
         D = int(rng.integers(1, 9))
